@@ -212,6 +212,28 @@ func c15SortPrograms() []*progCase {
 	return out
 }
 
+// c15KeptPrograms: arrays taken from one document / record / stream value are kept under a name while later documents are
+// read; nothing that happens to a later document reaches them.
+func c15KeptPrograms() []*progCase {
+	keep := Blk(Ex(CallE(Mem(V("keep"), "push"), Mem(V("$"), "t"))), Pr(S("kept"), CallE(Mem(V("keep"), "length"))))
+	end := Blk(Pr(V("keep")), Pr(CallE(Mem(Idx(V("keep"), N("0")), "contains"), N("2")), CallE(Mem(Idx(V("keep"), N("0")), "length")), CallE(Mem(Idx(V("keep"), N("0")), "pop")), CallE(Mem(Idx(V("keep"), N("0")), "sort"))), Pr(V("keep")))
+	begin := &Rule{Kind: "BEGIN", Body: Blk(Ex(Asg("=", V("keep"), Arr_())))}
+	var out []*progCase
+	for _, files := range [][]inFile{
+		{{"one.json", `{"t":[1,2]}`}, {"two.json", `{"t":[3,4,5]}`}},
+		{{"in.json", "{\"t\":[1,2]}\n{\"t\":[3,4,5]}\n{\"t\":[]}\n{\"t\":[6]}"}},
+		{{"in.json", `[{"t":[1,2]},{"t":[3,4,5]},{"t":[9]}]`}, {"two.json", `[{"t":[7,8]}]`}},
+		{{"in.json", `{"t":[[1,2],[2]]} {"t":[[5],[6],[7]]}`}},
+	} {
+		for _, kind := range []string{"BEGINFILE", ""} {
+			out = append(out, &progCase{P: &Program{Rules: []*Rule{begin, {Kind: kind, Body: keep}, {Kind: "END", Body: end}}}, Files: files})
+		}
+		// the root itself is kept
+		out = append(out, &progCase{P: &Program{Rules: []*Rule{begin, {Kind: "BEGINFILE", Body: Blk(Ex(CallE(Mem(V("keep"), "push"), V("$"))))}, {Kind: "END", Body: Blk(Pr(V("keep")))}}}, Files: files})
+	}
+	return out
+}
+
 type c15Plan struct {
 	family string
 	place  int
@@ -260,7 +282,7 @@ func init() {
 	fw.Register(addTok(tokFramesC15, &fw.Prop{
 		ID: "C15",
 		Rule: "all sequences of exactly D operations (every shorter history is a prefix of one of them, and a run prints result, contents and length after each operation) over 24 operations on one array " +
-			"(push of a number / string / array / unset value, pop, popfirst, reads and writes at 0, -1 and length, length, contains of a number / string / unset value, sort, a push / index store into the result of sort, a push of the null read from beyond the end, a store two past the end and a store into the second-last slot), with the array held by a variable, inside the input document ($.arr, also compared through -o), inside an object (o.k), inside another array (m[0]) as a literal rebuilt for every element of the input, as $.t of every record of a document with several empty arrays and as $.arr of every value of a stream and in a variable that starts with strings and numbers mixed (shorter histories); 44 fixed arrays of 5-40 elements with equal sort keys but distinguishable values (stability at every length);  " +
+			"(push of a number / string / array / unset value, pop, popfirst, reads and writes at 0, -1 and length, length, contains of a number / string / unset value, sort, a push / index store into the result of sort, a push of the null read from beyond the end, a store two past the end and a store into the second-last slot), with the array held by a variable, inside the input document ($.arr, also compared through -o), inside an object (o.k), inside another array (m[0]) as a literal rebuilt for every element of the input, as $.t of every record of a document with several empty arrays and as $.arr of every value of a stream and in a variable that starts with strings and numbers mixed (shorter histories); 12 programs that keep arrays of earlier documents / records / stream values while later ones are read; 44 fixed arrays of 5-40 elements with equal sort keys but distinguishable values (stability at every length);  " +
 			"deeper histories over the 11 length-changing and indexing operations; all sequences over 11 operations on an array with unset elements (observed through booleans and numbers only); and all sequences over 20 operations on two arrays including calls nested in each other's arguments and aliasing; histories are not merged (slice capacity is hidden state); oracle: ideal list in the reference interpreter; " +
 			"a state is a distinct model list reached; non-trivial = same",
 		Plan: func(t fw.Tier) int { return len(c15Units(t)) },
@@ -274,6 +296,10 @@ func init() {
 		Assumptions: []string{"reference interpreter mc/refsem (3.10 sharing, 3.16 methods)"},
 		Run: func(c *fw.Ctx, u int) {
 			if u == 0 {
+				for i, pc := range c15KeptPrograms() {
+					pc, i := pc, i
+					c.Do(func() any { return c15Spec{Family: "kept", Place: i} }, func() *fw.Violation { v, _, _ := pc.check(c); return v })
+				}
 				for i, pc := range c15SortPrograms() {
 					pc, i := pc, i
 					c.Do(func() any { return c15Spec{Family: "sortlong", Place: i} }, func() *fw.Violation { v, _, _ := pc.check(c); return v })
@@ -320,6 +346,10 @@ func init() {
 				return nil
 			}
 			s.Names = nil
+			if s.Family == "kept" {
+				v, _, _ := c15KeptPrograms()[s.Place].check(c)
+				return v
+			}
 			if s.Family == "sortlong" {
 				v, _, _ := c15SortPrograms()[s.Place].check(c)
 				return v
